@@ -317,12 +317,18 @@ func vfC07(w *vfWorld) {
 				continue // the credential itself travels in this header
 			}
 			val := vfPick(t, "c07.spoofval", []string{"admin", "root@evil.test", "a,b", " padded ", "Bearer forged", "x", "admin, ops"})
-			req.Headers = append(req.Headers, [2]string{variants(name), val})
+			vals := []string{val}
+			if t.Prob("c07.emptyfirst", 200) {
+				vals = []string{"", val} // the header repeated, its first occurrence empty
+			}
 			cn := http.CanonicalHeaderKey(name)
 			if _, ok := sent[cn]; !ok {
 				order = append(order, cn)
 			}
-			sent[cn] = append(sent[cn], strings.TrimSpace(val))
+			for _, v := range vals {
+				req.Headers = append(req.Headers, [2]string{variants(name), v})
+				sent[cn] = append(sent[cn], strings.TrimSpace(v))
+			}
 			cs.Spoofed++
 		}
 		req.Headers = append(req.Headers, src.hdrs...)
